@@ -44,8 +44,14 @@ CLAIMS['C20'] = dict(ref='DESIGN.md §3 C20, Part A',
                      text="Totality and purity by bounded symbolic execution: for the entry points listed in the evidence (classification, comparisons, Round/Ceil/Floor regions, New/Ldexp/Frexp, binary form, integer conversions, far-gap Add/Sub, Mul, short Parse/Compose inputs, the rounding kernels) every panic / out-of-range index / nil dereference site is a proof obligation (path condition must be unsat) except the documented panics, which are checked to occur exactly as documented; any store to a package variable by library code fails the check.",
                      note=TRUST + "Only the listed entry points and argument regions are covered; transcendental functions, division loops, formatting and float conversions are outside. Interleavings are not explored: data-race freedom is argued from the absence of shared writes, not model checked.")
 CLAIMS['C13'] = dict(ref='DESIGN.md Part A',
-                     text="Decoding half only: bounded symbolic model checking of UnmarshalJSON on every byte string up to 5 bytes (7 thorough): null/empty leave the receiver untouched, every RFC 8259 number gets exactly the value the text denotes (independent JSON-number recogniser; rounding kernel cut), every other input is an *json.UnmarshalTypeError with the receiver untouched or a lenient numeral form with exactly the denoted value. MarshalJSON is NOT covered.",
-                     note=TRUST + "encoding/json is replaced by its documented contract (the method receives the raw token); MarshalJSON, the Marshal/Unmarshal round trip and inputs longer than the bound are outside this check.")
+                     text="Bounded symbolic model checking of both halves. Decoding: UnmarshalJSON on every byte string up to 5 bytes (7 thorough): null/empty leave the receiver untouched, every RFC 8259 number gets exactly the value the text denotes (independent JSON-number recogniser; rounding kernel cut), every other input is an *json.UnmarshalTypeError with the receiver untouched or a lenient numeral form with exactly the denoted value. Encoding: MarshalJSON on every finite Decimal per (digit count, trailing zeros) class of the coefficient x class of the leading digit's decimal exponent (coefficient, sign, exponent inside a class symbolic): the bytes are accepted by an independent RFC 8259 recogniser, denote the value exactly with its sign and no superfluous digits, follow the -6/20 form thresholds, and the real UnmarshalJSON returns the same value; NaN/Inf give *json.UnsupportedValueError.",
+                     note=TRUST + "encoding/json is replaced by its documented contract (it calls MarshalJSON and hands UnmarshalJSON the raw token); Decimal.digits is replaced by a contract re-proved against the real body on every run; quick samples the (digits, zeros) classes (boundary ones always), thorough runs all 630.")
+CLAIMS['C06'] = dict(ref='DESIGN.md Part A',
+                     text="Bounded symbolic model checking of the default text output: MarshalText, String, Append/Format with precision -1 (e, E, f, g, G), Decimal.Append(\"v\") and Decimal.Format(State, 'v') on every finite Decimal per (digit count L, trailing zeros z) class of the coefficient x class of the leading digit's decimal exponent (coefficient, sign and the exponent inside a class symbolic). An independent numeral reader applied to the produced bytes proves: exactly d's value and sign, no superfluous digits, positional/exponent form thresholds, exponent layout (sign, at least two digits); the real UnmarshalText / Parse / Scan applied to the bytes returns a Decimal with the same value and sign; zeros of any exponent, NaN, +Inf, -Inf.",
+                     note=TRUST + "Decimal.digits is replaced by its contract over mathematical integers, which is proved equal to the real body per (L,z) class on every run. fmt.State and fmt.ScanState are small stubs following the interface documentation (the real fmt package is not executed). 'f' with precision -1 only for leading-digit exponents -8..21. Quick samples (L,z) classes; thorough runs all 630.")
+CLAIMS['C07'] = dict(ref='DESIGN.md Part A',
+                     text="Bounded symbolic model checking of formatting with a precision: Decimal.Format (stub fmt.State), Decimal.Append(spec) and package-level Append for verbs e,E,f,F,g,G per configuration (verb, precision, coefficient class (digit count, trailing zeros), leading-digit exponent, flag set, width all concrete; coefficient and sign symbolic). An independent numeral reader applied to the produced bytes proves the digits are the exact value rounded half-to-even at the position the precision selects (oracle over mathematical integers, including carries and ties), the fraction-digit count, the g/G form rule and trailing-zero stripping, '#', '+' and ' '; padding is compared with an independent model of the fmt width / '-' / '0' rules; Decimal.Append(spec) == Decimal.Format with the same flags; package Append == the flag-less verb.",
+                     note=TRUST + "The real fmt package is not executed (stub fmt.State that can report every flag combination, as fmt of go1.23+ does for '-' with '0'); Decimal.digits is replaced by a contract re-proved per run. The configuration space is sampled (boundary configurations always; 1000 quick / 40000 thorough); widths <= 45, precisions <= 40, f/F for leading-digit exponents -8..21.")
 CLAIMS['C18'] = dict(ref='DESIGN.md Part A',
                      text="Special-case / shortcut ladder of PowWithMode only: all 11 x 13 operand class pairs (every bit inside a class and the mode symbolic) against math.Pow of the installed toolchain, y=0 -> 1, x=1 -> 1, y=1 -> x bit-identical, y=-1 -> the mode-rounded reciprocal, NaN propagation, negative base with non-integer exponent -> NaN with the Pow payload, and powers of ten raised to integers (the exact power reaches the rounding kernel, or Inf / zero beyond the range). Any path that reaches the general algorithm (decomposed192.log) ends there and nothing is claimed about it.",
                      note=TRUST + "The accuracy half of the property (general path) is outside, for the C16 reason. QuoWithMode is an uninterpreted function here. Integer / half-integer exponents are taken in their exponent-0 / -1 encodings; the +-0.5 shortcut and Pow == PowWithMode(DefaultRoundingMode) are not checked.")
@@ -55,8 +61,6 @@ NA = {
 }
 NA.update({
     'C03': "not built: QuoRem's quotient and remainder loops run a data-dependent number of iterations (hundreds for large exponent gaps); the one-step induction designed in DESIGN.md Part B §1.5 was not implemented in the available time, and bounded unrolling alone does not reach the property's quantifier (the special-operand table of QuoRem is checked under C15)",
-    'C06': "not built to a usable bound: the digit-generation code (Decimal.digits, fmtE/fmtF) was encoded and harnessed (harness/zz_verif_c06.go), but the obligations relating the printed digits to the coefficient stay undecided beyond ~5-digit coefficients (cvc5 and z3 both time out), so no bound worth registering ran clean",
-    'C07': "not built: depends on the same formatting code as C06 plus the fmt flag/width/precision layout; nothing ran clean within reach",
     'C09': "not built: needs an integer model of float64/float32 rounding (float64(uint64), math.Ldexp, big.Float) in the executor that was not implemented in the available time",
     'C18': "not built: only the special-case ladder would be within reach (the general path is log/mul/exp arithmetic, see C16); the ladder harness was not completed in the available time",
 })
